@@ -829,9 +829,22 @@ def check(prop, tier, only_jobs=None, keep=False):
                 undecided.append("job %s obligation %s: CBMC counterexample does not reproduce on the real code (%s) — lowering/model disagreement, machinery defect; see %s" % (r["job"], o["id"], verdict, replay_path))
             else:
                 violations.append(item)
+    # ---------------- lowering validation (thorough tier): the lowered C and the original C++ of every harness of the
+    # units involved, run natively on the same random draws, must agree on every vt_check
+    selftest_info = None
+    if tier == "thorough" and results:
+        st_units = sorted(set(r["unit"] for r in results if r["kind"] == "harness") - set(["io", "census"]))
+        if st_units:
+            try:
+                programs, total, dis, _ = selftest(st_units, 6, seed or 1)
+                selftest_info = {"units": st_units, "harnesses": programs, "paired_executions": total, "disagreements": dis}
+                if dis:
+                    undecided.append("nop2c self-test: %d disagreement(s) between the lowered C and the original C++ (see replays/selftest.*)" % dis)
+            except Undecided as e:
+                undecided.append(str(e))
     # ---------------- evidence
     wall = time.time() - t0
-    write_evidence(prop, tier, seed, results, jobs, units, violations, known_hits, undecided, wall)
+    write_evidence(prop, tier, seed, results, jobs, units, violations, known_hits, undecided, wall, selftest_info)
     printed = set()
     for k, item in known_hits:
         if k["id"] not in printed:
@@ -856,7 +869,7 @@ def check(prop, tier, only_jobs=None, keep=False):
     return 0
 
 
-def write_evidence(prop, tier, seed, results, jobs, units, violations, known_hits, undecided, wall):
+def write_evidence(prop, tier, seed, results, jobs, units, violations, known_hits, undecided, wall, selftest_info=None):
     man = json.load(open(os.path.join(VERIF, "MANIFEST.json")))
     level = "proof"
     for c in man["checks"]:
@@ -947,6 +960,7 @@ def write_evidence(prop, tier, seed, results, jobs, units, violations, known_hit
         "functions_under_contract": sorted(fns.values(), key=lambda x: x["cxx"]),
         "jobs": jl, "bounded": bounded, "samples": samples or [{"note": "no obligations"}],
         "harness_assumes": sorted(assumes)[:60],
+        "nop2c_selftest": selftest_info or "thorough tier only",
         "undecided": undecided[:20],
         "known_findings_hit": sorted(set(k["id"] for k, _ in known_hits)),
         "violations": [{"job": v["job"], "obligation": v["obligation"], "replay": v["replay"], "native": v["native"]} for v in violations],
